@@ -91,7 +91,10 @@ MUTANTS = [
     # ---- C15
     ("c15-follow", ["C15"], FD, "WalkDir::new(&self.context.config.source_dir)\n", "WalkDir::new(&self.context.config.source_dir)\n            .follow_links(true)\n", "symlinks followed"),
     ("c15-lowercase", ["C15"], FD, "Ok(extension) => extension.to_string(),", "Ok(extension) => extension.to_lowercase(),", "case-folded extension"),
-    ("c15-is-file", ["C15"], FD, ".filter(|e| e.file_type().is_file())", ".filter(|e| e.path().is_file())", "link-following file test"),
+    ("c15-is-file", ["C15"], FD, "if !entry.file_type().is_file()", "if !entry.path().is_file()", "link-following file test"),
+    ("c15-walk-errors", ["C15"], FD, "                Err(e) =>\n                {\n                    error!(\"[ref: 39] Failed to search the source directory: {}\", e);\n                    return false;\n                },",
+     "                Err(e) =>\n                {\n                    error!(\"[ref: 39] Failed to search the source directory: {}\", e);\n                    continue;\n                },", "walk error logged, search goes on"),
+    ("c01-lock-zero", ["C01"], CX, "Ok(loaded_cache) if loaded_cache.next_reference_id > 0 =>", "Ok(loaded_cache) if loaded_cache.next_reference_id < u32::MAX =>", "lock value 0 accepted"),
     # ---- C16
     ("c16-default", ["C16"], CX, "fn default_use_cache() -> bool\n{\n    true\n}", "fn default_use_cache() -> bool\n{\n    false\n}", "use_cache default"),
     ("c16-unguarded-read", ["C16"], CX, "        if !config.use_cache || !cache_path.exists()\n", "        if !cache_path.exists()\n", "lock read with use_cache false"),
